@@ -5,11 +5,14 @@ import (
 	"encoding/binary"
 	"encoding/json"
 	"fmt"
+	bversion "github.com/WICG/webpackage/go/bundle/version"
 	"io/ioutil"
 	"math/rand"
+	"net/url"
 	"os"
 	"runtime"
 	"runtime/debug"
+	"strings"
 	"time"
 
 	"github.com/WICG/webpackage/go/bundle"
@@ -115,8 +118,8 @@ func totalRun(args []string) error {
 			}
 			return err
 		},
-		"certurl.ReadCertChain": func(b []byte) error { _, err := certurl.ReadCertChain(bytes.NewReader(b)); return err },
-		"sh.ParseListOfLists": func(b []byte) error { _, err := sh.ParseListOfLists(string(b)); return err },
+		"certurl.ReadCertChain":     func(b []byte) error { _, err := certurl.ReadCertChain(bytes.NewReader(b)); return err },
+		"sh.ParseListOfLists":       func(b []byte) error { _, err := sh.ParseListOfLists(string(b)); return err },
 		"sh.ParseParameterisedList": func(b []byte) error { _, err := sh.ParseParameterisedList(string(b)); return err },
 		"mice.Decode03": func(b []byte) error {
 			if len(b) < 32 {
@@ -252,6 +255,58 @@ func totalRun(args []string) error {
 			in := bytes.Repeat([]byte(s), n/len(s))
 			c.measure("sh.ParseListOfLists", "long", in, func() error { return parsers["sh.ParseListOfLists"](in) })
 			c.measure("sh.ParseParameterisedList", "long", in, func() error { return parsers["sh.ParseParameterisedList"](in) })
+		}
+	}
+	// (4) structure-aware damage of SIGNED artefacts: a bundle with a signatures section (two signers, one with a chain of
+	// two certificates), a signed exchange, a certificate chain - one bit per byte position (keeps the CBOR structure, changes
+	// a key, a type, a length, an index) and the map keys respelled; read, then everything a consumer does next
+	{
+		var arts []struct {
+			parser, note string
+			b            []byte
+		}
+		for _, ver := range []bversion.Version{bversion.VersionB1, bversion.VersionB2} {
+			b := &bundle.Bundle{Version: ver}
+			pu, _ := url.Parse("https://a.example/")
+			b.PrimaryURL = pu
+			for _, us := range []string{"https://a.example/", "https://b.example/y"} {
+				u, _ := url.Parse(us)
+				b.Exchanges = append(b.Exchanges, &bundle.Exchange{Request: bundle.Request{URL: u},
+					Response: bundle.Response{Status: 200, Header: map[string][]string{"Content-Type": {"text/html"}}, Body: []byte("body of " + us)}})
+			}
+			sa := &bsigner{"t1", []*keyCert{newKeyCert("p256", []string{"a.example"}, 0), newKeyCert("p256", []string{"ca.example"}, 10)}, map[string]bool{"a.example": true}}
+			sb := &bsigner{"t2", []*keyCert{newKeyCert("p384", []string{"b.example"}, 0)}, map[string]bool{"b.example": true}}
+			var signed []map[string]interface{}
+			for _, sg := range []*bsigner{sa, sb} {
+				if nb, err := signStep(b, sg, time.Unix(1600000000-10, 0), time.Hour, 16, &signed); err == nil {
+					b = nb
+				}
+			}
+			if f, _, err, _ := writeBundle(b, "plain"); err == nil {
+				arts = append(arts, struct {
+					parser, note string
+					b            []byte
+				}{"bundle.Read", "signed bundle " + string(ver), f})
+			}
+		}
+		for _, a := range arts {
+			step := 1
+			if !thorough {
+				step = 2
+			}
+			for i := r.Intn(step); i < len(a.b); i += step {
+				m := append([]byte{}, a.b...)
+				m[i] ^= 1 << uint(r.Intn(8))
+				fn := parsers[a.parser]
+				c.measure(a.parser, a.note+" bit flip", m, func() error { return fn(m) })
+			}
+			for _, key := range []string{"cert", "ocsp", "sct", "authority", "sig", "signed"} {
+				for _, to := range []string{strings.ToUpper(key[:1]) + key[1:], "x" + key[1:]} {
+					m := bytes.Replace(a.b, append([]byte{byte(0x60 + len(key))}, key...), append([]byte{byte(0x60 + len(key))}, to...), -1)
+					fn := parsers[a.parser]
+					c.measure(a.parser, a.note+" key "+key+" -> "+to, m, func() error { return fn(m) })
+				}
+			}
 		}
 	}
 	nrand := 300
